@@ -47,10 +47,15 @@ DEFECT_VARIANTS = {
                           'run -python -existing-file -rel-act-home missing.py',
                           # an argument given where a program SYMBOL is referenced
                           'run @ PGM x -existing-file -rel-home missing.py', 'run @ PGM2 -existing-path missing-path'],
-    'bad_integer': ['timeout = 1.5', 'timeout = abc', 'timeout = "1 +"'],
+    'bad_integer': ['timeout = 1.5', 'timeout = abc', 'timeout = "1 +"',
+                    {'assert': 'dir-contents . : matches {\n  a.txt\n  a.txt : contents num-lines == 1.5\n}',
+                     'other': 'timeout = 2.5'}],
     'bad_regex': ["file r.txt = -contents-of -rel-home exists.txt -transformed-by replace '(' x",
                   "file r.txt = -contents-of -rel-home exists.txt -transformed-by grep '*'",
-                  "file r.txt = -contents-of -rel-home exists.txt -transformed-by filter contents matches '[a'"],
+                  "file r.txt = -contents-of -rel-home exists.txt -transformed-by filter contents matches '[a'",
+                  # the defect in the matcher of a REPEATED file name of a FILES-CONDITION ([assert] only)
+                  {'assert': "dir-contents . : matches {\n  a.txt : type file\n  a.txt : contents matches '('\n}",
+                   'other': "file r.txt = -contents-of -rel-home exists.txt -transformed-by grep '('"}],
     'wrong_type': ['def text-matcher TM = DEFINED', 'def path WP = -rel DEFINED x', 'def text-transformer WT = DEFINED',
                    # a wrong type reached indirectly, and not through the first reference of the definition
                    'timeout = @[INDIRECT]@', 'env @[INDIRECT]@ = v'],
@@ -85,8 +90,8 @@ def concretize(c, mark):
                 line = vs[c['variant'] % len(vs)]
             else:
                 line = vs[(c['dpos'] + INSTR_PHASES.index(ph)) % len(vs)] if vs else DEFECT_LINE[c['defect']]
-            if ph == 'assert' and line.startswith('run '):
-                pass
+            if isinstance(line, dict):
+                line = line['assert' if ph == 'assert' else 'other']
             lines.insert(c['dpos'] - 1, line)
         parts.append('[%s]\n%s\n' % (PHASE_NAME[ph], '\n'.join(pre + lines)))
         if ph == 'setup':
